@@ -212,10 +212,12 @@ func (s *snapshotSink) done(err error) (snapshotMeta, error) {
 		return s.meta, err
 	}
 	temp = nil
+	verifPoint("snap.publish", filepath.Dir(s.snaps.dir))
 	s.snaps.mu.Lock()
 	s.snaps.index, s.snaps.term = s.meta.index, s.meta.term
 	s.snaps.mu.Unlock()
 	_ = s.snaps.applyRetain() // todo: trace error
+	verifPoint("snap.retain", filepath.Dir(s.snaps.dir))
 	return s.meta, nil
 }
 
